@@ -223,6 +223,45 @@ fn c05_fmt_color_query() {
     std::mem::forget(enc);
 }
 
+//# kind=bounded tier=quick props=C05 bound="one fixed two-letter title" fns=TTYEncoder::encode | Title(t) is one OSC 0 string: `ESC ] 0 ;` + the title + ST, a single formatted write with the title as its only argument
+#[kani::proof]
+#[kani::unwind(12)]
+fn c05_fmt_title() {
+    use kfmt_rec::*;
+    unsafe { REAL = false; }
+    let mut enc = TTYEncoder::new(caps());
+    let r = enc.encode(&mut NullSink, TerminalCommand::Title(String::from("ab")));
+    assert!(r.is_ok());
+    unsafe { assert!(NF == 1 && NA == 0 && OTHERS == 1 && str_eq(FMTS[0], "\x1b]0;{}\x1b\\")); }
+    kani::cover!(true);
+    std::mem::forget(r);
+    std::mem::forget(enc);
+}
+
+//# kind=bounded tier=quick props=C05 bound="one capability with a two-letter name (any two bytes)" fns=TTYEncoder::encode | Termcap([name]) is XTGETTCAP: `ESC P + q`, then every byte of the name as a lower-case hexadecimal number in order, then ST
+#[kani::proof]
+#[kani::unwind(12)]
+fn c05_fmt_termcap() {
+    use kfmt_rec::*;
+    unsafe { REAL = false; }
+    let mut enc = TTYEncoder::new(caps());
+    let (a, b): (u8, u8) = (kani::any(), kani::any());
+    kani::assume(a >= 0x30 && a < 0x7f && b >= 0x30 && b < 0x7f);
+    let mut name = String::new();
+    name.push(a as char);
+    name.push(b as char);
+    let r = enc.encode(&mut NullSink, TerminalCommand::Termcap(vec![name]));
+    assert!(r.is_ok());
+    unsafe {
+        assert!(NF == 4 && NA == 2 && OTHERS == 0);
+        assert!(str_eq(FMTS[0], "\x1bP+q") && str_eq(FMTS[1], "{:x}") && str_eq(FMTS[2], "{:x}") && str_eq(FMTS[3], "\x1b\\"));
+        assert!(ARGS[0] == a as i128 && ARGS[1] == b as i128);
+    }
+    kani::cover!(a != b);
+    std::mem::forget(r);
+    std::mem::forget(enc);
+}
+
 // ---------------------------------------------------------------- C20: the 256-colour index that is emitted
 // LinColor::distance (sqrt over SIMD lanes in the rasterize crate) is replaced by a recorder that answers with free values:
 // which of the two candidates is closer is decided by the caller of this stub, the harness checks what is done with the answer.
